@@ -29,6 +29,10 @@ def run(rep, prog, tier):
     verdict.check_fail_closed(rep, prog, 'C17.4')
     verdict.check_crypto_arm_verdict(rep, prog, 'C17.4')
     check_disqualified_arm(rep, prog)
+    # the value recorded as the verdict of the key material is compared with NotImplemented before use (the C01.2 analysis)
+    from rules.C01 import check_not_implemented
+    from rules.C08 import _Proxy
+    check_not_implemented(_Proxy(rep, 'C17.4'), prog)
     check_aggregation(rep, prog)
 
 
